@@ -654,3 +654,107 @@ Proof.
     unfold id_eqb. rewrite !N.eqb_refl. reflexivity. }
   congruence.
 Qed.
+
+(* ---------- without shutdown: everything accepted reaches the broker ---------- *)
+Definition bw_quiescent (s : st) : Prop := b_can s = false /\ w_can s = false.
+(* fair among the two loops; Close is not called, nobody publishes *)
+Definition fair_bw_policy (pol : st -> label) : Prop :=
+  forall s, ~ bw_quiescent s -> (pol s = LB \/ pol s = LW) /\ can (pol s) s = true.
+
+Lemma bw_quiescent_dec s : {bw_quiescent s} + {~ bw_quiescent s}.
+Proof.
+  unfold bw_quiescent. destruct (b_can s), (w_can s);
+    try (left; split; reflexivity); right; intros (A & B); discriminate.
+Qed.
+
+Lemma bw_quiescent_delivered s :
+  Inv s -> cp s = CNot -> bw_quiescent s ->
+  pending s = [] /\ concat (delivered s) = accepted s.
+Proof.
+  intros I Hc (Hb & Hw).
+  destruct I as [Ic _ _ _ _ Icl _ Ibl _ Iwp _ _ _ _ Iwt _ _].
+  unfold b_can, w_can, pending in *.
+  destruct s as [ch cl bf wk dn g b w c dl ac pn]. cbn in *. subst c. subst cl.
+  assert (Eb : b = BIdle /\ ch = []).
+  { destruct b; try discriminate.
+    - destruct ch; [auto|discriminate].
+    - destruct (Ibl eq_refl) as [_ F]. discriminate. }
+  destruct Eb as [-> ->].
+  destruct w as [|d|d|d bt|d| | |]; try discriminate.
+  - subst wk. rewrite (Iwt eq_refl eq_refl) in *. cbn in *.
+    rewrite app_nil_r in Ic. auto.
+  - discriminate (Iwp eq_refl).
+Qed.
+
+Lemma bw_step_keeps l s :
+  (l = LB \/ l = LW) -> cp (step l s) = cp s /\ accepted (step l s) = accepted s.
+Proof.
+  intros Hl. destruct (accepted_spec s) as (_ & HB & HW & _).
+  destruct s as [ch cl bf wk dn g b w c dl ac pn].
+  destruct Hl as [-> | ->]; (split; [|assumption]); cbn [step].
+  - unfold step_B. destruct b; try reflexivity. destruct ch; [destruct cl|]; reflexivity.
+  - unfold step_W. destruct w as [|d|d|d bt|d| | |]; try reflexivity.
+    + destruct dn; reflexivity.
+    + destruct bf; reflexivity.
+    + destruct wk; [destruct bf|]; reflexivity.
+    + destruct bt; reflexivity.
+    + destruct bf; reflexivity.
+Qed.
+
+Lemma eventually_delivered_inv pol :
+  fair_bw_policy pol ->
+  forall m s, (measure s <= m)%nat -> Inv s -> cp s = CNot ->
+  exists n, (n <= m)%nat /\
+            pending (drive pol n s) = [] /\
+            concat (delivered (drive pol n s)) = accepted (drive pol n s) /\
+            accepted (drive pol n s) = accepted s.
+Proof.
+  intros Hfair. induction m as [|m IH]; intros s Hm I Hc.
+  - exists 0%nat. split; [lia|]. cbn [drive].
+    destruct (bw_quiescent_dec s) as [Q|Q].
+    + destruct (bw_quiescent_delivered s I Hc Q). auto.
+    + destruct (Hfair s Q) as [Hs Hcan].
+      assert (Hs' : pol s = LB \/ pol s = LW \/ pol s = LC) by tauto.
+      pose proof (measure_decreases _ _ Hs' Hcan). lia.
+  - destruct (bw_quiescent_dec s) as [Q|Q].
+    + exists 0%nat. split; [lia|]. cbn [drive].
+      destruct (bw_quiescent_delivered s I Hc Q). auto.
+    + destruct (Hfair s Q) as [Hs Hcan].
+      assert (Hs' : pol s = LB \/ pol s = LW \/ pol s = LC) by tauto.
+      pose proof (measure_decreases _ _ Hs' Hcan) as Hd.
+      destruct (bw_step_keeps (pol s) s Hs) as [Kc Ka].
+      destruct (IH (step (pol s) s)) as (n & Hn & Hp & Hcd & Hacc).
+      * lia.
+      * apply step_inv, I.
+      * congruence.
+      * exists (S n). split; [lia|]. cbn [drive]. repeat split; try assumption. congruence.
+Qed.
+
+Lemma eventually_delivered pol sched :
+  fair_bw_policy pol ->
+  let s := run sched init in
+  cp s = CNot ->
+  exists n, (n <= measure s)%nat /\
+            let s' := drive pol n s in
+            pending s' = [] /\ concat (delivered s') = accepted s' /\ accepted s' = accepted s.
+Proof.
+  cbn zeta. intros Hf Hc.
+  apply (eventually_delivered_inv pol Hf (measure (run sched init))); auto. apply inv_reach.
+Qed.
+
+Definition bw_policy (s : st) : label := if b_can s then LB else LW.
+Lemma bw_fair : fair_bw_policy bw_policy.
+Proof.
+  intros s Q. unfold bw_policy, bw_quiescent in *.
+  destruct (b_can s) eqn:B; [split; [auto|exact B]|].
+  destruct (w_can s) eqn:W; [split; [auto|exact W]|].
+  exfalso. apply Q. auto.
+Qed.
+
+Lemma constants_fit_model :
+  ew_done_cap = 1 /\ ew_drain_on_done = true /\
+  (forall d, (1 <= pop_max d <= 100)%nat) /\ (1 <= N.to_nat ew_chan_cap)%nat.
+Proof.
+  split; [exact done_cap_one|]. split; [exact drain_on_done|].
+  split; [intro d; split; [apply pop_max_pos|apply pop_max_le]|exact chan_cap_pos].
+Qed.
